@@ -212,7 +212,7 @@ static int sweep_schedule(long idx, long total_reads, long total_writes)
 }
 struct case_budget chk_budget(const char *tier)
 {
-        struct case_budget b = { (long)SWEEP_SCEN * SWEEP_PER, strcmp(tier, "thorough") == 0 ? 500000 : 30000 };
+        struct case_budget b = { (long)SWEEP_SCEN * SWEEP_PER, strcmp(tier, "thorough") == 0 ? 2500000 : 80000 };
         return b;
 }
 void chk_run_case(uint64_t seed, long c, bool is_sweep)
